@@ -400,7 +400,9 @@ pub fn cases(tier: Tier) -> Vec<Case> {
         }
     }
     // counts
-    let counts: Vec<usize> = if tier.is_quick() { vec![0, 1, 2, 31, 62, 63] } else { (0..=63).collect() };
+    // (up to and just past what one message can carry: a value that is accepted must arrive with
+    // every endpoint in place, whatever mixture of endpoints and regions filled the message)
+    let counts: Vec<usize> = if tier.is_quick() { vec![0, 1, 2, 31, 62, 63, 64, 65, 66] } else { (0..=66).collect() };
     for count in counts {
         for mix in [c15::Mix::Senders, c15::Mix::Receivers, c15::Mix::Alternating] {
             for data in [c15::DataPart::Small, c15::DataPart::P3] {
@@ -470,7 +472,7 @@ fn run_all(rep: &mut Report, tier: Tier) {
     let _ = HashSet::<u8>::new();
     rep.set("evaluations", json!(n));
     rep.set("distinct_nontrivial", json!(nontrivial));
-    rep.set("rule", json!("cases: (a) every sequence of length <= 3 (5 thorough; a covering family of length 4 in quick) over {sender, receiver, opaque sender, opaque receiver, bytes sender, bytes receiver, region, data}, flat in a Vec or nested into Option / tuple / map positions, in a small and in a 3-packet enclosing message; (b) 0,1,2,31,62,63 (every 0..=63) endpoints x {senders, receivers, alternating with regions} x {small, 3-packet}; (c) transfer chains of one receiver over 1..3 (5) hops in {same thread, other thread, forked process} x backlog {0,1,3} (..20) sent before, one message while in transit and one between hops, two after, optionally polling the receiver before each hop; every received endpoint is probed with a nonce against the channel attached at that position; distinct by construction; non-trivial = at least two items / any count or chain case"));
+    rep.set("rule", json!("cases: (a) every sequence of length <= 3 (5 thorough; a covering family of length 4 in quick) over {sender, receiver, opaque sender, opaque receiver, bytes sender, bytes receiver, region, data}, flat in a Vec or nested into Option / tuple / map positions, in a small and in a 3-packet enclosing message; (b) 0,1,2,31,62..66 (every 0..=66) endpoints x {senders, receivers, alternating with regions} x {small, 3-packet}; (c) transfer chains of one receiver over 1..3 (5) hops in {same thread, other thread, forked process} x backlog {0,1,3} (..20) sent before, one message while in transit and one between hops, two after, optionally polling the receiver before each hop; every received endpoint is probed with a nonce against the channel attached at that position; distinct by construction; non-trivial = at least two items / any count or chain case"));
     rep.set("exhaustive", json!(true));
     rep.sample(serde_json::to_value(&cs[cs.len() / 3]).unwrap());
     rep.sample(serde_json::to_value(&cs[cs.len() - 1]).unwrap());
